@@ -215,7 +215,7 @@ def bypass_decisions(body, call_bb):
     return out
 
 
-def describe_switch(body, d):
+def describe_switch(body, d, _depth=0):
     from ..analysis import direct_field, direct_def
     t = body.blocks[d]['term']
     df = direct_field(body, t['op'])
@@ -272,7 +272,51 @@ def describe_switch(body, d):
             body.blocks[d] = saved
     if dd[0] == 'stmt' and dd[1]['rv']['k'] == 'bin':
         return ('cmp', dd[1]['rv']['op'])
+    if dd[0] == 'local' and body.local_ty(dd[1]) == 'bool' and len(body.defs().get(dd[1], [])) > 1 and not _depth:
+        # a flag assembled by `a && b` / `a || b` (`let renamed = use_rename && rename().is_ok(); if !renamed {..}`): the decision is made by
+        # what the flag was assembled from - a constant stands for the test that chose it, anything else for itself
+        parts = []
+        for d_ in body.defs()[dd[1]]:
+            if d_[2] == 'call':
+                parts.append(_describe_value(body, d_[0], {'c': [d_[3].dest[0], []]}, via_call=d_[3]))
+            elif d_[3]['rv']['k'] == 'use' and const_bool_op(d_[3]['rv']['op']) is not None:
+                chooser = None
+                for x in sorted(body.dominators()[d_[0]], key=lambda y: len(body.dominators()[y]), reverse=True):
+                    if x != d_[0] and body.blocks[x]['term']['k'] == 'switch' and x != d:
+                        chooser = x
+                        break
+                parts.append(describe_switch(body, chooser, _depth=1) if chooser is not None else ('const', ''))
+            elif d_[3]['rv']['k'] == 'use':
+                saved = body.blocks[d]
+                body.blocks[d] = dict(saved, term=dict(saved['term'], op=d_[3]['rv']['op']))
+                try:
+                    parts.append(describe_switch(body, d, _depth=1))
+                finally:
+                    body.blocks[d] = saved
+            else:
+                parts.append(('stmt', ''))
+        return ('multi', parts)
     return (dd[0], '')
+
+
+def const_bool_op(op):
+    from ..facts import const_bool
+    return const_bool(op)
+
+
+def _describe_value(body, bb, op, via_call=None):
+    c = via_call
+    if c is not None and c.matches(r'^std::option::Option::<T>::(is_some|is_none)$|^std::result::Result::<T, E>::(is_ok|is_err)$') and c.args:
+        from ..analysis import direct_def
+        base = direct_def(body, c.args[0])
+        if base[0] == 'call':
+            return ('disc-call', base[1].path or base[1].decl)
+        if base[0] == 'ref':
+            dl = direct_def(body, {'c': [base[1], []]})
+            if dl[0] == 'call':
+                return ('disc-call', dl[1].path or dl[1].decl)
+            return ('disc', body.local_ty(base[1]))
+    return ('call', (c.path or c.decl) if c is not None else '')
 
 
 def mandatory_step(ctx, rule, body, call, key, what, allowed_fields=(), allowed_calls=(), allow_err_return=True):
@@ -281,11 +325,17 @@ def mandatory_step(ctx, rule, body, call, key, what, allowed_fields=(), allowed_
     result of a call matching one of `allowed_calls` (e.g. an emptiness test, an iterator `next`)."""
     from ..analysis import return_variants_from
     bad = []
+    def allowed(kind, name):
+        if kind in ('field', 'disc-field') and name in allowed_fields:
+            return True
+        if kind in ('call', 'disc-call', 'disc') and any(re.search(rx, name) for rx in allowed_calls):
+            return True
+        if kind == 'multi':
+            return bool(name) and all(allowed(k_, n_) for k_, n_ in name)
+        return False
     for d, bypass in bypass_decisions(body, call.bb):
         kind, name = describe_switch(body, d)
-        if kind in ('field', 'disc-field') and name in allowed_fields:
-            continue
-        if kind in ('call', 'disc-call', 'disc') and any(re.search(rx, name) for rx in allowed_calls):
+        if allowed(kind, name):
             continue
         if allow_err_return and kind in ('try', 'disc-call', 'disc', 'call'):
             # bypass must return an error (or None for Option functions)
@@ -369,7 +419,7 @@ MANDATORY = {
     'C05': [
         ('dedupe::FsCommand::execute', r'FsCommand::safe_remove$', None, 'the safe replacement of the file by a link', (), (r'&dedupe::FsCommand$',)),
         ('dedupe::FsCommand::execute', r'reflink::reflink$', 0, 'the reflink replacement', (), (r'&dedupe::FsCommand$',)),
-        ('dedupe::FsCommand::execute', r'FsCommand::move_copy$', 0, 'the copy fall-back of move', (), (r'&dedupe::FsCommand$', r'Result.*::is_ok$', r'FsCommand::move_rename$')),
+        ('dedupe::FsCommand::execute', r'FsCommand::move_copy$', 0, 'the copy fall-back of move', ('use_rename',), (r'&dedupe::FsCommand$', r'Result.*::is_ok$', r'FsCommand::move_rename$')),
     ],
     'C07': [
         ('transform::Transform::run', r'Transform::make_args$', 0, 'building the argument vector', (), ()),
